@@ -89,7 +89,7 @@ def grid(tier):
                                                ("WRAP", {"wrap": True}, {"wrap": False}, {"wide": 13}),
                                                ("VERS", {"version": 1.2}, {"version": 2}, {"no_rows": True}),
                                                ("DLM", {"version": 1.2, "wrap": True}, {"version": 2}, {"wide": 6}))):
-        for sc in ("upper", "preserve"):
+        for sc in ("upper", "preserve", "lower"):
             yield dict({"input": "gen", "seed": 7200 + k2, "cfg1": c1, "cfg2": c2, "fmt": 0, "gen_version": 2, "src_case": sc, "dup_line": dup}, **extra)
     # a text sample with '#' inside it ('47#', a casing weight), from a wrapped and from a comma-delimited source (both read by the
     # normal engine): the unwrapped output is read by the numpy engine, for which '#' started a comment anywhere on a line
